@@ -43,7 +43,29 @@ VIAS = ["ctor", "cli"]
 APIS = ["parse", "ap"]
 SAVERS = ["method", "function"]
 COLOR = {"k": "enum", "name": "Color", "members": L.ENUMS["Color"]}
-ITEMS = [{"k": "int"}, {"k": "float"}, {"k": "str"}, {"k": "bool"}, {"k": "path"}, COLOR]
+# Enums with a mixed-in data type are Enums too (members ARE ints / strs, which is what makes them interesting: a falsy member,
+# a member that passes isinstance(x, int) / isinstance(x, str) tests meant for plain values)
+PRIO = {"k": "enum", "name": "Prio", "members": ["ZERO", "LOW", "HIGH"]}
+TAG = {"k": "enum", "name": "Tag", "members": ["EMPTY", "A", "B"]}
+MIXIN_PRELUDE = ("from enum import IntEnum\n"
+                 "class Prio(IntEnum):\n    ZERO = 0\n    LOW = 1\n    HIGH = 3\n"
+                 "class Tag(str, Enum):\n    EMPTY = ''\n    A = 'a'\n    B = 'b'\n")
+ITEMS = [{"k": "int"}, {"k": "float"}, {"k": "str"}, {"k": "bool"}, {"k": "path"}, COLOR, PRIO, TAG]
+
+
+def _mixins(rng, t):
+    """replace some of the plain Enum types of a sampled type by the IntEnum / str-Enum"""
+    if t["k"] == "enum":
+        return rng.choice([t, t, PRIO, TAG])
+    if t["k"] in ("list", "tupvar", "opt"):
+        return dict(t, item=_mixins(rng, t["item"]))
+    if t["k"] == "tupfix":
+        same = all(x == t["items"][0] for x in t["items"])
+        if same:
+            it = _mixins(rng, t["items"][0])
+            return dict(t, items=[it] * len(t["items"]))
+        return dict(t, items=[_mixins(rng, x) for x in t["items"]])
+    return t
 
 
 # --------------------------------------------------------------------------------------------------
@@ -85,7 +107,7 @@ def _rand_node(rng, counter, depth, all_defaults=False):
     counter[0] += 1
     fields = []
     for _ in range(rng.randint(1, 4)):
-        t = L.rand_type(rng, allow_lit=False)
+        t = _mixins(rng, L.rand_type(rng, allow_lit=False))
         d = _rand_default(rng, t, 0.0 if all_defaults else 0.2)
         fields.append(_leaf(f"f{len(fields)}", t, d, L.rand_value(rng, t)))
     if depth > 0:
@@ -271,7 +293,7 @@ def _classes(node, saver, out):
 
 
 def source(case):
-    out = [L.PRELUDE, "from simple_parsing import Serializable\n"]
+    out = [L.PRELUDE, MIXIN_PRELUDE, "from simple_parsing import Serializable\n"]
     _classes(case["schema"], case["saver"], out)
     return "\n".join(out)
 
